@@ -5,10 +5,19 @@ CONSTANTS
   StoreFailed = TRUE
   PosKeyMode = "u16"
   IdxKeyMode = "abs"
+  ImgKeepMode = "none"
+  LookupsCap = 0
   MaxDepth = 1
   MaxDepthDmg = 2
   MaxDepthCollide = 2
   Families = {"dmg", "collide"}
+  ImgCounts = {2, 3}
+  ImgFilterMode = "own"
+  MaxImgFilters = 3
+  FillKeys = 150
+  FillLangs = 100
+  FillLookups = 150
+  MaxDepthScopes = 2
 SPECIFICATION Spec
 VIEW View
 INVARIANTS EmitCase
